@@ -51,6 +51,19 @@ def first_difference(ra, rb):
     return None
 
 
+def diff_region(d, ra, hl=4):
+    """'eos-tail' when the first difference lies in the last mini-GOP of the stream, else 'body'.  On the pinned tree the coding of the
+    final pictures depends on whether the EOS signal reaches picture decision before the last picture has been dispatched (listed
+    finding): differences confined to the tail are keyed separately so that they do not mask differences in the body of a stream."""
+    import re
+    m = re.search(r"packet (\d+)|pts (-?\d+)", d or "")
+    if not m:
+        return "body"
+    k = int(m.group(1) if m.group(1) is not None else m.group(2))
+    n = len(ra.packets())
+    return "eos-tail" if k >= n - (1 << hl) - 1 else "body"
+
+
 def run_status(r):
     """'ok' | 'rejected' | 'hang:<where>' | 'crash' | 'nojson'"""
     if r.hang:
@@ -88,5 +101,6 @@ def differential(case, variants_of, label, variant="rel", timeout=240, env_of=No
             continue
         d = first_difference(base, r)
         if d:
-            viol.append(dict(key="%s|output-differs|%s" % (pid, label), what="%s vs %s: %s" % (base_name, name, d)))
+            reg = diff_region(d, base, (case.get("cfg") or {}).get("hierarchical_levels", 4))
+            viol.append(dict(key="%s|output-differs|%s%s" % (pid, label, "|eos-tail" if reg == "eos-tail" else ""), what="%s vs %s: %s" % (base_name, name, d)))
     return viol, statuses, results
